@@ -124,18 +124,25 @@ def strip_comments(src):
     return src
 
 
-def forbidden_tokens():
-    """grep the Lean sources (comments removed) for sorry/axiom/native_decide/…; returns list of (file, token)."""
+def forbidden_tokens(modules=None):
+    """grep the Lean sources (comments removed) for sorry/axiom/native_decide/…; returns list of (file, token).
+    `modules`: restrict to these module names (a property's import closure); None = the whole tree."""
     hits = []
-    for root, _, files in os.walk(LEAN):
-        if '.lake' in root or '.audit' in root:
-            continue
-        for fn in files:
-            if fn.endswith('.lean'):
-                p = os.path.join(root, fn)
-                src = strip_comments(open(p, encoding='utf-8').read())
-                for m in FORBIDDEN.finditer(src):
-                    hits.append((os.path.relpath(p, LEAN), m.group(0).strip()))
+    paths = []
+    if modules is None:
+        for root, _, files in os.walk(LEAN):
+            if '.lake' in root or '.audit' in root:
+                continue
+            paths += [os.path.join(root, fn) for fn in files if fn.endswith('.lean')]
+    else:
+        for m in modules:
+            p = os.path.join(LEAN, *m.split('.')) + '.lean'
+            if os.path.exists(p):
+                paths.append(p)
+    for p in paths:
+        src = strip_comments(open(p, encoding='utf-8').read())
+        for m in FORBIDDEN.finditer(src):
+            hits.append((os.path.relpath(p, LEAN), m.group(0).strip()))
     return hits
 
 
@@ -338,7 +345,7 @@ class Ctx:
                         self.broken.append('theorem %s depends on axioms %s' % (t, ax))
                     else:
                         self.discharged += 1
-            hits = forbidden_tokens()
+            hits = forbidden_tokens(import_closure(['PromVerif.Props.' + self.prop, 'PromVerif.Drv.' + self.prop]))
             if hits:
                 self.broken.append('forbidden tokens in Lean sources: %s' % hits[:5])
                 self.discharged = 0
@@ -444,7 +451,11 @@ def load_known():
 
 def match_known(known, prop, sig):
     for k in known.get('findings', []):
-        if k['property'] == prop and k['signature'] == sig:
+        if k['property'] != prop:
+            continue
+        if k.get('signature') == sig or sig in k.get('signatures', []):
+            return k
+        if k.get('signature_prefix') and sig.startswith(k['signature_prefix']):
             return k
     return None
 
